@@ -62,6 +62,9 @@ Proof. repeat split; cbn; tauto. Qed.
 Lemma class_lookup_tie : Gen_handlers.class_lookup_mode = c_cls_mode default_config.
 Proof. reflexivity. Qed.
 
+(* the configuration of the tree: the default one, with the generated fact on how class_factory accepts the object it found *)
+Definition tree_config : config := with_cls_reads default_config Gen_handlers.class_reads_object.
+
 (* the generated table never pickles outside the allow_pickle guard *)
 Lemma handlers_guarded : table_pk default_config Gen_handlers.handlers.
 Proof. apply table_pkb_sound. vm_compute. reflexivity. Qed.
